@@ -454,6 +454,8 @@ def r5_domain_len(ctx):
 
 
 def run(ctx):
+    from . import effects
+    effects.check_property(ctx, "C07")    # R07.E: no operation on shared protocol state outside the reviewed table
     from . import C17
     C17.r6_target_derivation(ctx)    # the HTTP front-end: which host:port a request names (absolute form, Host header, default ports)
     C17.r7_parsing_totality(ctx)
